@@ -517,7 +517,18 @@ def _body_schema(draw, g: Gate, names: list[str]) -> dict:
     return {"type": "object", "properties": props, "required": [next(iter(props))]}
 
 
-def _response(draw, g: Gate, names: list[str], code: str, success: bool) -> dict:
+def _formatted_primitive(schema: dict, schemas: dict) -> bool:
+    """Resolves (through aliases, one array level) to a string with a format / an enum-free formatted scalar."""
+    n = schema
+    for _ in range(6):
+        if isinstance(n, dict) and "$ref" in n:
+            n = schemas.get(n["$ref"].rsplit("/", 1)[1], {})
+    if isinstance(n, dict) and n.get("type") == "array":
+        return _formatted_primitive(n.get("items", {}), schemas)
+    return isinstance(n, dict) and n.get("type") == "string" and n.get("format") in ("uuid", "date", "date-time", "byte", "binary")
+
+
+def _response(draw, g: Gate, names: list[str], code: str, success: bool, schemas_ctx: dict | None = None) -> dict:
     resp: dict[str, Any] = {"description": draw(st.sampled_from(["OK", "Created", "Result", "Failure", "It's done"]))}
     if not success:
         kind = g.pick(draw, [(None, "none"), (None, "json"), ("error_text", "text")], fallback="none")
@@ -531,7 +542,12 @@ def _response(draw, g: Gate, names: list[str], code: str, success: bool) -> dict
     if kind == "none":
         return resp
     if kind == "json":
-        resp["content"] = {"application/json": {"schema": _resp_schema(draw, g, names)}}
+        sch = _resp_schema(draw, g, names)
+        if success and _formatted_primitive(sch, schemas_ctx or {}):
+            # a formatted primitive (uuid/date/...) as the whole response is cast, not converted: finding C05-F04
+            if not g.flag(draw, "resp_formatted_primitive", 1, 1):
+                sch = {"type": "string"}
+        resp["content"] = {"application/json": {"schema": sch}}
     elif kind == "text":
         resp["content"] = {"text/plain": {"schema": {"type": "string"}}}
     elif kind == "binary":
@@ -543,7 +559,10 @@ def _response(draw, g: Gate, names: list[str], code: str, success: bool) -> dict
     elif kind == "ndjson":
         resp["content"] = {"application/x-ndjson": {"schema": _ref(draw(st.sampled_from(names))) if names else {"type": "object"}}}
     elif kind == "multi":
-        resp["content"] = {"application/json": {"schema": _resp_schema(draw, g, names)}, "text/plain": {"schema": {"type": "string"}}}
+        sch = _resp_schema(draw, g, names)
+        if success and _formatted_primitive(sch, schemas_ctx or {}) and not g.flag(draw, "resp_formatted_primitive", 1, 1):
+            sch = {"type": "string"}
+        resp["content"] = {"application/json": {"schema": sch}, "text/plain": {"schema": {"type": "string"}}}
         if draw(st.booleans()):
             resp["content"] = dict(reversed(list(resp["content"].items())))
     return resp
@@ -597,8 +616,8 @@ def _operation(draw, g: Gate, names: list[str], path: str, path_vars: list[str],
     op: dict[str, Any] = {}
     # operationId
     oid_kind = g.pick(draw, [(None, "camel"), (None, "snake"), ("no_operation_id", "absent"), ("dup_operation_id", "dup"),
-                             ("fastapi_operation_id", "fastapi"), ("hostile_operation_id", "hostile")], fallback="camel",
-                      weights=[4, 4, 2, 1, 1, 1])
+                             ("fastapi_operation_id", "fastapi"), ("hostile_operation_id", "hostile"),
+                             ("digit_leading_operation_id", "digit")], fallback="camel", weights=[8, 8, 4, 2, 2, 2, 1])
     base = ["list", "get", "create", "update", "delete", "find", "fetch", "put"][op_index % 8] + ["Pets", "User", "Orders", "Things", "Item", "Parts"][(op_index // 2) % 6]
     if oid_kind == "camel":
         op["operationId"] = f"{base}{op_index}"
@@ -612,7 +631,9 @@ def _operation(draw, g: Gate, names: list[str], path: str, path_vars: list[str],
         norm = _re.sub(r"_+", "_", _re.sub(r"[^0-9a-zA-Z_]", "_", _re.sub(r"[{}]", "", path.strip("/")))).strip("_").lower()
         op["operationId"] = f"handler{op_index}_{norm}_{method}" if norm else f"handler{op_index}_{method}"
     elif oid_kind == "hostile":
-        op["operationId"] = draw(st.sampled_from(["class", "import", "get.pets", "get pets", "2fast", "Get", "list", "type", "méthode", "from"])) + ("" if draw(st.booleans()) else str(op_index))
+        op["operationId"] = draw(st.sampled_from(["class", "import", "get.pets", "get pets", "Get", "list", "type", "méthode", "from"])) + ("" if draw(st.booleans()) else str(op_index))
+    elif oid_kind == "digit":
+        op["operationId"] = draw(st.sampled_from(["2fast", "3DModel", "1st_item"])) + str(op_index)
     # tags
     tag_kind = g.pick(draw, [(None, "one"), (None, "one"), (None, "none"), ("multi_tag", "multi"), ("hostile_tag", "hostile"),
                              ("tag_variant", "variant"), ("client_attr_tag", "client_attr")], fallback="one", weights=[3, 3, 3, 2, 2, 2, 1])
@@ -692,10 +713,10 @@ def _operation(draw, g: Gate, names: list[str], path: str, path_vars: list[str],
     primary = g.pick(draw, [(None, "200"), (None, "200"), (None, "201"), (None, "204"), ("status_202", "202"), ("status_206", "206"),
                             ("no_2xx", None)], fallback="200")
     if primary:
-        responses[primary] = _response(draw, g, names, primary, True)
+        responses[primary] = _response(draw, g, names, primary, True, schemas_ctx)
         if g.flag(draw, "multi_2xx", 1, 6):
             second = draw(st.sampled_from([c for c in ["200", "201", "202", "204"] if c != primary]))
-            responses[second] = _response(draw, g, names, second, True)
+            responses[second] = _response(draw, g, names, second, True, schemas_ctx)
             for a, b in ((primary, second), (second, primary)):
                 if _is_streaming(responses[a], schemas_ctx) and responses[b].get("content"):
                     if not g.flag(draw, "stream_second_2xx_content", 1, 1):
